@@ -24,6 +24,12 @@ RULES = {
 }
 
 
+def may_be_rejected(ctx, p, st, i):
+    """the computed status stored by this write can be Rejected on this path (the path did not decide otherwise before storing it)"""
+    pv = possible_variants(ctx, p, st, STATUS, before=i)
+    return pv is None or "Rejected" in pv
+
+
 def run(ctx):
     ctx.rule_texts.update(RULES)
     ctx.assumptions += ["A-ATOMIC", "A-PRIMS: cw_utils::must_pay returns the amount of the single attached coin of that denom or errs",
@@ -36,7 +42,9 @@ def run(ctx):
     PROP, CFG = it["proposals"], it["flex_config"]
     groups = exec_paths(ctx, CRATE, opaque=(CS, AUTHORIZE, CHECK_PAID))
     n_create = n_refund = 0
-    close_refuses_rejected = False
+    # Close refuses a stored Rejected when none of its successful paths admits one (a repair may admit it under a one-shot marker:
+    # then a voted-down proposal can still be closed and refunded, and persisting Rejected early is harmless)
+    close_paths = admits_rejected = 0
     for p in groups.get("Close", []):
         if p.is_err():
             continue
@@ -44,8 +52,10 @@ def run(ctx):
             if e.kind == "write" and e.item == PROP and e.op != "remove":
                 base, _ = update_base(e.value)
                 pv = possible_variants(ctx, p, ("field", base, "status"), STATUS, before=i)
-                if pv is not None and "Rejected" not in pv:
-                    close_refuses_rejected = True
+                close_paths += 1
+                if pv is None or "Rejected" in pv:
+                    admits_rejected += 1
+    close_refuses_rejected = close_paths > 0 and admits_rejected == 0
     # a finding is identified by the call site that fails: a new message that reaches the very write of Propose / Vote (a batch form
     # calling the same handler) is the same finding, not another one
     site_owner = {}
@@ -122,7 +132,7 @@ def run(ctx):
                 else:
                     ctx.ob("R15.3", key + "/no refund elsewhere", not refunds, sites=[e.site],
                            detail="refund emitted on a path that neither executes nor closes the proposal")
-                    if cs_call(st) is not None and close_refuses_rejected:
+                    if cs_call(st) is not None and close_refuses_rejected and may_be_rejected(ctx, p, st, i):
                         owner = site_owner.setdefault(tuple(e.site), variant)
                         ctx.ob("R15.4", "cw3_flex_multisig::execute/%s persists a possibly-Rejected status without refund" % owner, False,
                                sites=[e.site],
@@ -131,7 +141,7 @@ def run(ctx):
                                       "(WrongCloseStatus), so with refund_failed_proposals enabled the deposit can never be reclaimed" % variant)
             for i, e in creating:
                 st = field_of(e.value, "status")
-                if cs_call(st) is not None and close_refuses_rejected:
+                if cs_call(st) is not None and close_refuses_rejected and may_be_rejected(ctx, p, st, i):
                     owner = site_owner.setdefault(tuple(e.site), variant)
                     ctx.ob("R15.4", "cw3_flex_multisig::execute/%s persists a possibly-Rejected status without refund" % owner, False,
                            sites=[e.site],
